@@ -33,8 +33,10 @@ SPEC = [
     (0x2031, "arr", [(0, 0x05, "ro", 3), (1, 0x06, "ro", 0x77)]),
     (0x2032, "arr", [(0, 0x05, "ro", 3), (1, 0x06, "wo", 0x78)]),
     (0x2033, "arr", [(0, 0x05, "ro", 3), (1, 0x07, "const", 0x79)]),
+    # a record that exists but has no members at all: every sub-index is missing, the index is not
+    (0x2034, "rec", []),
 ]
-SUB_SCOPE = [0x2020, 0x2030, 0x2031, 0x2032, 0x2033]
+SUB_SCOPE = [0x2020, 0x2030, 0x2031, 0x2032, 0x2033, 0x2034]
 
 
 def build_od():
@@ -111,6 +113,12 @@ def _pre(cli, rig, pre):
     elif pre == "download":
         r = cli.download(0x2000, 0, list(b"0123456789"), "seg-size")
         sx.prove(r is None, "preceding download failed", "C06/history/pre-download")
+    elif pre == "client-abort":
+        # the client starts an upload of 0x2000 (9 bytes: segmented) and gives up with an abort frame that, like the
+        # library's own, names 0x0000:00; the server was serving 0x2000:00
+        r = cli.xfer([0x40, 0x00, 0x20, 0x00, 0, 0, 0, 0])
+        sx.prove(r is not None and r[0] == 0x41, "preceding initiate failed", "C06/history/pre-abort")
+        rig.deliver(sx.mkbytes([0x80, 0, 0, 0, 0x00, 0x00, 0x04, 0x05]))
     elif pre == "open-download":
         # a segmented download to 0x2000 is left open: initiated, one segment confirmed, not finished
         r = cli.xfer([0x20, 0x00, 0x20, 0x00, 0, 0, 0, 0])
@@ -337,6 +345,10 @@ def unknown_command(kind, pre="none"):
     if kind == "block":
         sx.prove((r[1] == mux[0]) & (r[2] == mux[1]) & (r[3] == mux[2]),
                  "abort carries the multiplexer of the refused transfer", tag + "/mux")
+    elif pre == "client-abort":
+        # a command without a multiplexer of its own: the abort names the transfer the server served last, not what a
+        # client abort frame happened to carry
+        sx.prove((r[1] == 0x00) & (r[2] == 0x20) & (r[3] == 0), "abort names the transfer served last", tag + "/mux-after-abort")
     sx.prove(_same(rig.store_snapshot(), before), "store changed", tag + "/store-changed")
     sx.reach("unknown-" + kind)
     if pre == "open-download":
@@ -444,6 +456,7 @@ def jobs(tier):
             out.append(dict(func="toggle_error", params=dict(direction=d, pre=pre)))
         for k in ("ccs7", "block"):
             out.append(dict(func="unknown_command", params=dict(kind=k, pre=pre)))
+    out.append(dict(func="unknown_command", params=dict(kind="ccs7", pre="client-abort")))
     for op, steps in (("upload", 4), ("download-exp", 1), ("download-seg", 4), ("block-download", 5), ("block-upload", 3)):
         for at in range(steps):
             out.append(dict(func="client_abort", params=dict(op=op, at=at)))
